@@ -143,7 +143,14 @@ func Case(w *vt.W, rng *rand.Rand, id, maxLen int) {
 		case 3:
 			// one run of 1..MaxIGap inserted or deleted bases in an otherwise exact copy, away from its ends:
 			// the longest gap the aligner is documented to extend through
-			if g := 1 + rng.Intn(pals.MaxIGap); ln >= 60 && g <= budget {
+			g := 1 + rng.Intn(pals.MaxIGap)
+			if rng.Intn(2) == 0 {
+				g = pals.MaxIGap // the boundary case half of the time
+			}
+			if g > budget {
+				g = budget
+			}
+			if ln >= 60 && g >= 1 {
 				indels = g
 				at := 20 + rng.Intn(ln-40)
 				if rng.Intn(2) == 0 {
@@ -215,7 +222,7 @@ func Case(w *vt.W, rng *rand.Rand, id, maxLen int) {
 		// aligner's recursion - which cuts a trapezoid along the query at the ends of the best local path through
 		// its middle row - loses about 1 in 100 of these short copies to a cut through the copy (measured on
 		// the unchanged tree; recorded as a finding, whose recorded comparison witness/C15-short-repeat-k5.json is
-		// repeated in every run). The random stream is consumed all the same.
+		// repeated in every run).
 		if ln := minLen * 6 / 5; (shortEnds || rng.Intn(2) == 0) && int(float64(ln)*(1-minID)/3) >= 2 && minID >= 0.9 {
 			d := 7 + rng.Intn(4)
 			ta := rng.Intn(len(T) - ln)
